@@ -95,6 +95,35 @@ CHECKS += [
      "note": _CRASH_NOTE},
 ]
 
+CHECKS += [
+    {"id": "C15", "engine": "enum", "level": "exploration",
+     "technique": "bounded-exhaustive enumeration of task signatures x config_args subsets x calls, all-pairs key/identity oracle",
+     "text": "All 262 (parameter-kind sequence of <=3 parameters, config_args subset) combinations, every call over values {0,1} with positional/"
+     "keyword passing, omitted/explicit defaults, variadic extras and extra keywords in both orders, through the scheduler's own default merge; "
+     "eval_hash equal <=> bound non-config arguments equal over all pairs; JobInfo placeholders, task-hash sensitivity, distinct type tags.",
+     "note": "Trusts inspect.signature binding as the reference; argument values only from {0,1,5,6}."},
+    {"id": "C17", "engine": "enum", "level": "exploration",
+     "technique": "bounded-exhaustive enumeration of task definitions (full product of mutation dimensions), all-pairs hash/identity oracle",
+     "text": "Full product of name, namespace, body, version, hash_includes (incl. reordered), definition-time options and an extra decorator line, "
+     "each with 3 call-time option sets and 3 partial bindings, defined in real module files; plus wraps_task wrappers; hash equal <=> code identity equal.",
+     "note": "Under a fixed version only one body is enumerated."},
+    {"id": "C18", "engine": "enum", "level": "exploration",
+     "technique": "bounded-exhaustive enumeration of expressions, all-pairs hash/identity oracle plus pickle round trip",
+     "text": "All Task/Scheduler/Simple/Value expressions over small name, argument, keyword, option and export-option alphabets; hash equal <=> "
+     "(kind, name, args, options, exported) equal over all pairs; pickling keeps hash/args/options and resets call_hash and _upstreams.",
+     "note": "Argument alphabet includes nested expressions that differ only in their options."},
+    {"id": "C19", "engine": "enum", "level": "exploration",
+     "technique": "bounded-exhaustive enumeration of nested values against a reference traversal; scheduler evaluation of nested expressions",
+     "text": "All nestings of depth <=2 over list, tuple, namedtuple, set, dict (keys too), plain/frozen dataclasses with and without non-init fields; "
+     "map_nested_value equals a reference rebuild type-exactly, visited leaves equal iter_nested_value's leaves, Scheduler.run replaces nested expressions.",
+     "note": "Leaves {1,'a',expression}; frozensets and container subclasses are leaves by design."},
+    {"id": "C37", "engine": "opseq", "level": "model_checking",
+     "technique": "explicit-state BFS over define/redefine/wrap histories on the real TaskRegistry with state invariants",
+     "text": "All histories of <=4 (quick) / <=7 (thorough) operations over define (2 names x 2 bodies), wrap (2 wrappers, repeated = double wrap) and a "
+     "third task, on a fresh registry swapped in for the global one; invariants after every operation.",
+     "note": "Stored task hashes are taken as they are (a renamed inner task keeps the hash computed under its old name; not part of the statement)."},
+]
+
 _ALL = [f"C{i:02d}" for i in range(1, 39)]
 _claimed = {c["id"] for c in CHECKS}
 _REASONS = {}
